@@ -133,6 +133,32 @@ def _cluster_nodes(nodes, fraction):
     return nodes
 
 
+def _lattice_nodes(nodes):
+    """Initial configuration as an input: every object is translated rigidly so that its centre sits on a site of a
+    regular lattice (non-overlapping start for hard-core systems built with the random input handler)."""
+    import math
+    import jellyfysh.setting as setting
+    from jellyfysh.setting import hypercuboid_setting
+    pb = setting.periodic_boundaries
+    dim = setting.dimension
+    m = max(1, math.ceil(len(nodes) ** (1.0 / dim) - 1e-9))
+    lengths = hypercuboid_setting.system_lengths
+    for k, root in enumerate(nodes):
+        idx, rest = [], k
+        for _ in range(dim):
+            idx.append(rest % m)
+            rest //= m
+        site = [(idx[i] + 0.5) * lengths[i] / m for i in range(dim)]
+        shift = [site[i] - root.value.position[i] for i in range(dim)]
+
+        def move(node):
+            node.value.position = [pb.correct_position_entry(x + shift[i], i) for i, x in enumerate(node.value.position)]
+            for ch in node.children:
+                move(ch)
+        move(root)
+    return nodes
+
+
 def build(ini_text, sim_seed, workdir, cluster=None):
     """Build setting + mediator exactly as run.main does; returns a Context."""
     from jellyfysh.base import factory
@@ -150,7 +176,11 @@ def build(ini_text, sim_seed, workdir, cluster=None):
     ctx._catcher = catcher
     from jellyfysh.input_output_handler.input_output_handler import InputOutputHandler
     real_read = InputOutputHandler.read
-    if cluster:
+    if cluster == "lattice":
+        def read(self):
+            return _lattice_nodes(real_read(self))
+        InputOutputHandler.read = read
+    elif cluster:
         def read(self):
             return _cluster_nodes(real_read(self), cluster)
         InputOutputHandler.read = read
